@@ -66,9 +66,16 @@ func newConn(ctx context.Context, onConnect func(net.Conn) net.Conn, onClose fun
 	}, nil
 }
 
-func (c *conn) store(index int, resultChan chan data) (ok bool) {
+func (c *conn) store(resultChan chan data) (index int, ok bool) {
 	c.lock.Lock()
 	if ok = !c.closed; ok {
+		// after the counter has wrapped around, skip an index that is still pending
+		for i := 0; i <= len(c.results); i++ {
+			index = int(atomic.AddInt32(&c.counter, 1) & 0x7fff)
+			if _, used := c.results[index]; !used {
+				break
+			}
+		}
 		c.results[index] = resultChan
 	}
 	c.lock.Unlock()
@@ -107,9 +114,9 @@ func (c *conn) rangeAndClean(f func(index int, resultChan chan data)) {
 }
 
 func (c *conn) Transport(ctx context.Context, request []byte) (response []byte, err error) {
-	index := int(atomic.AddInt32(&c.counter, 1) & 0x7fff)
 	resultChan := make(chan data, 1)
-	if !c.store(index, resultChan) {
+	index, ok := c.store(resultChan)
+	if !ok {
 		return nil, ErrClosed
 	}
 	if verifhook.On {
